@@ -3,7 +3,10 @@
 // replayed op lines inside a synctest bubble (virtual clock for the keep-alive
 // bookkeeping) and records, after every op, the op's result and a sorted dump
 // of the manager's state (scenes, lines per configuration in slice order,
-// service stats).  White-box access comes from overlay/export_verif.go.
+// service stats).  There is no white-box shim: nothing is compiled into package scenem
+// and no unexported identifier of it is named.  State that has no exported query is read
+// by TYPE (reflect + unsafe, see whitebox_test.go); the periodic check is called through
+// the callback the real Start registered on the service's timer manager.
 package c19
 
 import (
@@ -29,6 +32,7 @@ import (
 	logproxy "github.com/dfklegend/cell2/utils/logger/proxy"
 	"github.com/dfklegend/cell2/utils/runservice"
 
+	"mmo/common/config"
 	mymsg "mmo/messages"
 	"mmo/servers/scenem"
 	hscenem "mmo/servers/scenem/handler"
@@ -71,6 +75,7 @@ type env struct {
 	self *actor.PID
 	sent []sentReq
 	acks []string // what clients of the AllocScene handler were answered, in order
+	wb   *whitebox // by-type access to the manager's state (whitebox_test.go)
 }
 
 // stubCtx stands in for the actor context of the manager's NodeService: the
@@ -145,6 +150,7 @@ func newEnv() *env {
 	m := hs.Mgr
 	m.Start()
 	e := &env{hs: hs, mgr: m, ns: ns, self: actor.NewPID("h:9", "scenem-1")}
+	e.wb = openWhitebox(m, ns.GetRunService().GetTimerMgr())
 	// what actor.Started does for a spawned service: remember the context
 	ns.Receive(&stubCtx{e: e, msg: &actor.Started{}})
 	setRoutable(nil)
@@ -162,13 +168,13 @@ func showAck(err error, ret interface{}) string {
 	return "ack:?"
 }
 
-func showScene(s scenem.VScene) string {
+func showScene(s vScene) string {
 	return fmt.Sprintf("%d:%d:%d:%s", s.SceneId, s.CfgId, s.LineId, svcShow(s.ServiceId))
 }
 
 func (e *env) dump() string {
 	var sb strings.Builder
-	sc := e.mgr.VScenes()
+	sc := e.wb.scenes()
 	sort.Slice(sc, func(a, b int) bool { return sc[a].SceneId < sc[b].SceneId })
 	sb.WriteString("S=")
 	for i, s := range sc {
@@ -177,7 +183,7 @@ func (e *env) dump() string {
 		}
 		sb.WriteString(showScene(s))
 	}
-	ls := e.mgr.VLines()
+	ls := e.wb.lines()
 	cfgs := make([]int, 0, len(ls))
 	for c, l := range ls {
 		if len(l) > 0 {
@@ -201,7 +207,7 @@ func (e *env) dump() string {
 			}
 		}
 	}
-	st := e.mgr.VServices()
+	st := e.wb.services()
 	sort.Slice(st, func(a, b int) bool { return st[a].Name < st[b].Name })
 	now := common.NowMs()
 	sb.WriteString(" V=")
@@ -224,13 +230,13 @@ func (e *env) dump() string {
 	}
 	// the public-scene table (sorted) and whether the keeper's timer has been armed
 	sb.WriteString(" T=")
-	for i, t := range e.mgr.VTable() {
+	for i, t := range e.wb.table() {
 		if i > 0 {
 			sb.WriteByte(',')
 		}
 		fmt.Fprintf(&sb, "%d:%d", t[0], t[1])
 	}
-	fmt.Fprintf(&sb, " K=%d N=%d", hx.B2i(e.mgr.VKeeperStarted()), e.mgr.VNextId())
+	fmt.Fprintf(&sb, " K=%d N=%d", hx.B2i(e.wb.keeperStarted()), e.wb.nextId())
 	return sb.String()
 }
 
@@ -287,11 +293,11 @@ func exec(op string) string {
 		case "adv":
 			time.Sleep(time.Duration(hx.KVInt(ws, "ms")) * time.Millisecond)
 		case "tick":
-			e.mgr.VTick()
+			e.wb.tick()
 		case "lost":
-			e.mgr.VLost(svcName(hx.KVInt(ws, "svc")))
+			e.wb.lost(svcName(hx.KVInt(ws, "svc")))
 		case "wlost":
-			e.mgr.VWorldLost(svcName(hx.KVInt(ws, "svc")))
+			e.wb.worldLost(svcName(hx.KVInt(ws, "svc")))
 		case "create":
 			e.mgr.OnSceneCreateSucc(&scenem.SceneObj{SceneId: hx.KVU64(ws, "sid"), CfgId: int32(hx.KVInt(ws, "cfg")),
 				ServiceId: svcName(hx.KVInt(ws, "svc"))})
@@ -312,7 +318,7 @@ func exec(op string) string {
 			if o == nil {
 				r = "none"
 			} else {
-				r = showScene(scenem.VScene{SceneId: o.SceneId, CfgId: o.CfgId, LineId: o.LineId, ServiceId: o.ServiceId})
+				r = showScene(vScene{SceneId: o.SceneId, CfgId: o.CfgId, LineId: o.LineId, ServiceId: o.ServiceId})
 			}
 		case "route":
 			var ks []int
@@ -364,7 +370,7 @@ func exec(op string) string {
 			// one round of the public-scene keeper for the public scene (cfg, n): trySpawnScene -> SpawnScene
 			before := len(e.sent)
 			cfg := int32(hx.KVInt(ws, "cfg"))
-			cnt := e.mgr.VKeeper(cfg, int32(hx.KVInt(ws, "n")))
+			cnt := e.wb.keeper(cfg, int32(hx.KVInt(ws, "n")))
 			r = "quiet"
 			if len(e.sent) == before+1 {
 				q := e.sent[before]
@@ -398,11 +404,11 @@ func exec(op string) string {
 				}
 			}
 		case "pubadd":
-			e.mgr.VAddPublic(int32(hx.KVInt(ws, "cfg")), int32(hx.KVInt(ws, "n")))
+			e.wb.addPublic(int32(hx.KVInt(ws, "cfg")), int32(hx.KVInt(ws, "n")))
 		case "update":
 			// one round of the keeper over the whole table: the real PublicScenes.Update
 			before := len(e.sent)
-			e.mgr.VUpdate()
+			e.wb.update()
 			r = e.showSent(before)
 		case "timers":
 			// the service's loop serves its timer queue (keep-alive check and keeper, as armed by the real Start functions)
@@ -422,7 +428,7 @@ func exec(op string) string {
 				r += "+" + a
 			}
 		case "weight":
-			switch scenem.VWeightCmp(hx.KVInt(ws, "a"), hx.KVInt(ws, "b")) {
+			switch weightCmp(hx.KVInt(ws, "a"), hx.KVInt(ws, "b")) {
 			case -1:
 				r = "lt"
 			case 0:
@@ -673,7 +679,7 @@ func (g *gen) noteRound(obs string) {
 // the model's literal FindIdleService loop, not judged by the property).  Only bare placement decisions are made.
 func (g *gen) emptyIdCase(run func(string) string, nops int) {
 	h := g.h
-	perf, pub := scenem.VFlags()
+	perf, pub := config.PerfTest, config.EnablePublicScene
 	run(fmt.Sprintf("reset perf=%d pub=%d", hx.B2i(perf), hx.B2i(pub)))
 	for i := 0; i < nops; i++ {
 		switch c := h.R.Intn(10); {
@@ -710,7 +716,7 @@ func (g *gen) oneCase(run0 func(string) string, nops int, malformed bool) {
 	}
 	g.cfgIds = cfgFamilies[fam]
 	h.Count(fmt.Sprintf("case.cfg-family.%d", fam))
-	perf, pub := scenem.VFlags()
+	perf, pub := config.PerfTest, config.EnablePublicScene
 	run(fmt.Sprintf("reset perf=%d pub=%d", hx.B2i(perf), hx.B2i(pub)))
 	if h.R.Intn(4) != 0 { // else: no scene service is routable (every spawn fails at once)
 		run(routeOp(h))
